@@ -90,6 +90,26 @@ def conv_flag(text):
 
 
 CONVERTERS = {"Num": conv_num, "Color": conv_color, "Flag": conv_flag}
+
+
+# -- a second converter per type name (same text pattern, another conversion): registering a type name
+#    again replaces the converter for step definitions made AFTERWARDS
+@_parse.with_pattern(r"\d+")
+def conv_num_alt(text):
+    return ("alt", int(text))
+
+
+@_parse.with_pattern(r"red|green|blue")
+def conv_color_alt(text):
+    return ("alt", text.upper())
+
+
+@_parse.with_pattern(r"on|off")
+def conv_flag_alt(text):
+    return ("alt", text == "on")
+
+
+CONVERTERS_ALT = {"Num": conv_num_alt, "Color": conv_color_alt, "Flag": conv_flag_alt}
 # type -> (greedy regex, lazy regex, python conversion)
 PARSE_TYPES = {
     "any": (r".+", r".+?", lambda s: s),
@@ -422,7 +442,8 @@ class Model(object):
     def __init__(self):
         self.kind = "parse"
         self.types = set()
-        self.defs = dict((t, []) for t in STYPES)     # dicts: pat, text, fn, st
+        self.type_alt = set()       # type names whose CURRENT converter is the alternative one
+        self.defs = dict((t, []) for t in STYPES)     # dicts: pat, text, fn, st, alt (types converted by the alt version)
 
     def all_defs(self):
         return [d for t in STYPES for d in self.defs[t]]
@@ -490,12 +511,16 @@ class Model(object):
             return None
         if kind == "type":
             self.types.add(op["name"])
+            if op.get("alt"):
+                self.type_alt.add(op["name"])
+            else:
+                self.type_alt.discard(op["name"])
             return None
         if kind == "reg":
             exp = self.expect_reg(op)
             if exp == "added":
                 self.defs[op["st"]].append({"pat": op["pat"], "text": render(op["pat"]), "fn": op["fn"],
-                                            "st": op["st"]})
+                                            "st": op["st"], "alt": frozenset(self.type_alt)})
             return exp
         return self.expect_lookup(op["st"], op["text"])
 
@@ -508,8 +533,22 @@ class Model(object):
             for idx, d in enumerate(self.defs[name]):
                 r = ref_match(d["pat"], text)
                 if r is not None:
-                    hits.append((name, idx, d, r[0], r[1]))
+                    hits.append((name, idx, d, _apply_alt(d, r[0]), r[1]))
         return hits
+
+
+def _apply_alt(d, args):
+    """The converters that were registered when the definition was made convert its parameters."""
+    alt = d.get("alt")
+    if not alt:
+        return args
+    out = []
+    for p, a in zip(fields_of(d["pat"]), args):
+        if p["f"] in alt and a["value"] is not None:
+            v = a["value"]
+            a = dict(a, value=[("alt", x) for x in v] if isinstance(v, list) else ("alt", v))
+        out.append(a)
+    return out
 
 
 def effective(pat, text):
@@ -535,6 +574,7 @@ class Replayer(object):
         self.model = model or Model()
         self.evals = 0
         self.diverged = False
+        self.type_seen = {}
         self.held = []      # earlier lookup results that are still in use (formatters keep a match until result())
 
     def check_held(self, now):
@@ -567,7 +607,14 @@ class Replayer(object):
     def do_type(self, op, _known):
         from behave import matchers
         self.model.apply(op)
-        matchers.register_type(**{op["name"]: CONVERTERS[op["name"]]})
+        matchers.register_type(**{op["name"]: (CONVERTERS_ALT if op.get("alt") else CONVERTERS)[op["name"]]})
+        if op["name"] in self.model.types and len([1 for _ in self.model.all_defs()]) >= 0:
+            self.res.label("reg:type-converter-replaced" if self.replaced(op) else "reg:type")
+
+    def replaced(self, op):
+        seen = self.type_seen.get(op["name"])
+        self.type_seen[op["name"]] = bool(op.get("alt"))
+        return seen is not None and seen != bool(op.get("alt"))
 
     def do_reg(self, op, _known):
         from behave.step_registry import AmbiguousStep
@@ -1307,10 +1354,14 @@ class C11Machine(RuleBasedStateMachine):
     def use_step_matcher(self, kind):
         self.emit({"op": "use", "kind": kind})
 
-    @precondition(lambda self: self.model.kind in PARSE_KINDS and len(self.model.types) < len(CONVERTERS))
-    @rule(name=st.sampled_from(sorted(CONVERTERS)))
-    def register_type(self, name):
-        self.emit({"op": "type", "name": name})
+    @precondition(lambda self: self.model.kind in PARSE_KINDS)
+    @rule(name=st.sampled_from(sorted(CONVERTERS)), alt=st.booleans())
+    def register_type(self, name, alt):
+        # also: a type name that is registered already gets another converter
+        op = {"op": "type", "name": name}
+        if alt:
+            op["alt"] = True
+        self.emit(op)
 
     @rule(data=st.data(), stype=st.sampled_from(STYPES), fn=st.integers(0, NFUNCS - 1))
     def register_new(self, data, stype, fn):
@@ -1391,7 +1442,7 @@ def required_labels(tier):
                "field:re-named", "field:re-unnamed", "field:re-optional", "field:anonymous", "field:quoted",
                "inst:optional-absent", "inst:optional-present", "inst:card-empty",
                "look:bound", "look:unbound", "look:other-step-type", "look:specific-over-generic",
-               "look:earlier-over-later", "look:generic-hit", "look:earlier-match-still-held",
+               "look:earlier-over-later", "look:generic-hit", "look:earlier-match-still-held", "reg:type-converter-replaced",
                "reg:added", "reg:ignored", "reg:ambiguous", "hist:nontrivial",
                "modules:default-after-switch", "modules:env-default", "modules:sibling-import",
                "modules:cwd-1", "modules:cwd-2", "modules:cwd-3"])
